@@ -135,6 +135,10 @@ def step (st : St) : List String → St × String
         | none => (st, "out-of-fuel")
       else (st, "bad-op")
     | _, _ => (st, "bad-op")
+  | "reverse" :: pn =>
+    match (nats pn).bind parsePath with
+    | some p => (st, showPath (reversePath p))
+    | none => (st, "bad-op")
   | ["mac", key, beta, ts, exp, ci, ce] =>
     match parseHex key, nats [beta, ts, exp, ci, ce] with
     | some k, some [b, t, e, i, g] => (st, toString (macf k b t e i g))
